@@ -383,7 +383,10 @@ fn gen_chan(rng: &mut Rng, ctx: &Ctx) -> Option<String> {
 /// One update in five meets an events endpoint that refuses some of its posts (queued failure reports, the download
 /// and the install report): the library logs that and carries on.
 fn gen_evf(rng: &mut Rng) -> u8 {
-    if rng.chance(20) { 1 + rng.below(7) as u8 } else { 0 }
+    let ev = if rng.chance(20) { 1 + rng.below(7) as u8 } else { 0 };
+    // bit 7: a failing check / download reports an error text with a NUL byte in it (what a server error echoed into
+    // the message can contain): the result handed to C then has no message, and is released like any other
+    ev | if rng.chance(8) { 0x80 } else { 0 }
 }
 
 pub fn gen_update(rng: &mut Rng, prof: &Profile, ctx: &Ctx) -> Op {
@@ -664,7 +667,7 @@ fn gen_conc(rng: &mut Rng, prof: &Profile, ctx: &Ctx, runner: &Runner) -> Op {
     let upd = {
         let (resp, idx) = gen_resp_pref(rng, prof, ctx, prefer);
         let dl = match idx { Some(i) => gen_download(rng, prof, ctx, i), None => None };
-        Op::Update { chan: gen_chan(rng, ctx), resp, dl, evf: gen_evf(rng) }
+        Op::Update { chan: gen_chan(rng, ctx), resp, dl, evf: gen_evf(rng) & 0x7f }
     };
     let n = 1 + rng.below(3);
     let mut bops = Vec::new();
